@@ -371,6 +371,140 @@ theorem tie_totalWeightsShape : GoZero.Extracted.C15.totalWeightsShape = [
   "}",
   "return"] := rfl
 
+/-! ### decision conditions on the property's path, LIFTED from the source into Lean functions (round 4)
+
+The extractor takes the condition / expression as it stands in the AST, replaces the non-integer leaves
+(`h.keys[i]` ↦ k, `hash` ↦ x, `len(h.keys)` ↦ n, the `sort.Search(…)` call ↦ idx, `repr(…)` ↦ an integer code of
+the string) and translates it (extract/translate.go).  The theorems below state, for ALL arguments, that the
+lifted function IS what the model computes: operator, operand order, constant. -/
+
+section Conditions
+open GoZero.Extracted.C15
+
+/-- `Get`: `sort.Search(len(h.keys), h.keys[i] >= hash)` is the model's `searchGE` … -/
+theorem tie_condGetSearch (keys : List Nat) (x : Nat) :
+    searchGE keys x = (keys.takeWhile fun (k : Nat) => condGetSearch (k : Int) (x : Int) == 0).length := by
+  have e : (fun (k : Nat) => condGetSearch (k : Int) (x : Int) == 0) = (fun k => decide (k < x)) := by
+    funext k
+    unfold condGetSearch
+    by_cases h : k < x
+    · have : ¬ ((k : Int) ≥ (x : Int)) := by omega
+      simp [h, this]
+    · have : ((k : Int) ≥ (x : Int)) := by omega
+      simp [h, this]
+  rw [e]
+  rfl
+
+/-- … `% len(h.keys)` is the model's wrap-around (`getRest`): index of the first virtual node ≥ the key's hash, the
+first one again beyond the last … -/
+theorem tie_exprGetWrap (keys : List Nat) (x : Nat) :
+    exprGetWrap ((keys.takeWhile fun (k : Nat) => condGetSearch (k : Int) (x : Int) == 0).length : Nat) (keys.length : Nat)
+      = ((searchGE keys x % keys.length : Nat) : Int) := by
+  rw [← tie_condGetSearch]
+  unfold exprGetWrap
+  rw [Int.tmod_eq_emod_of_nonneg (by omega)]
+  exact Int.ofNat_mod_ofNat _ _
+
+/-- … the test for the empty ring is `len(h.ring) == 0` (model: `s.ring.isEmpty`) … -/
+theorem tie_condGetEmpty (s : CH) : condGetEmpty (s.ring.length : Nat) = 1 ↔ s.ring.isEmpty = true := by
+  unfold condGetEmpty
+  cases s.ring <;> simp
+  omega
+
+/-- … and the position inside a collision bucket is `innerIndex % len(nodes)` (model: `H.inner … % b.length`). -/
+theorem tie_exprGetInner (hv n : Nat) : exprGetInner (hv : Int) (n : Int) = ((hv % n : Nat) : Int) := by
+  unfold exprGetInner
+  rw [Int.tmod_eq_emod_of_nonneg (by omega)]
+  exact Int.ofNat_mod_ofNat _ _
+
+/-- `Remove`: the same lower-bound search … -/
+theorem tie_condRemoveSearch (k x : Int) : condRemoveSearch k x = condGetSearch k x := rfl
+
+/-- … `index < len(h.keys) && h.keys[index] == hash` is the model's `keys[i]? = some x` (`removeKey`) … -/
+theorem tie_condRemoveFound (keys : List Nat) (i x : Nat) :
+    condRemoveFound (i : Int) (keys.length : Nat) ((keys.getD i 0 : Nat) : Int) (x : Int) = 1 ↔ keys[i]? = some x := by
+  unfold condRemoveFound
+  by_cases h : i < keys.length
+  · have h1 : ((i : Int) < ((keys.length : Nat) : Int)) := by omega
+    simp only [List.getD_eq_getElem?_getD, List.getElem?_eq_getElem h, Option.getD_some, h1, decide_true, Bool.true_and,
+      Option.some.injEq]
+    by_cases e : keys[i] = x
+    · simp [e]
+    · have : ¬ ((keys[i] : Int) = (x : Int)) := by omega
+      simp [e, this]
+  · have h1 : ¬ ((i : Int) < ((keys.length : Nat) : Int)) := by omega
+    have h2 : keys[i]? = none := List.getElem?_eq_none (by omega)
+    simp [h1, h2]
+
+/-- … and the loops run `i = 0 … h.replicas-1` / `0 … replicas-1` (none for a non-positive count): the model's
+`List.range`. -/
+theorem tie_condRemoveLoop (i R : Nat) : condRemoveLoop (i : Int) (R : Int) = 1 ↔ i ∈ List.range R := by
+  unfold condRemoveLoop
+  by_cases h : i < R
+  · have : (i : Int) < (R : Int) := by omega
+    simp [h, this]
+  · have : ¬ (i : Int) < (R : Int) := by omega
+    simp [h, this]
+
+theorem tie_condAddLoop (i : Nat) (replicas : Int) : condAddLoop (i : Int) replicas = 1 ↔ i ∈ List.range replicas.toNat := by
+  unfold condAddLoop
+  by_cases h : (i : Int) < replicas
+  · have : i < replicas.toNat := by omega
+    simp [h, this]
+  · have : ¬ i < replicas.toNat := by omega
+    simp [h, this]
+
+/-- `removeRingNode` skips entries whose repr DIFFERS (a, b: any injective integer code of the two strings) … -/
+theorem tie_condRingNodeOther (a b : Int) : condRingNodeOther a b = 1 ↔ a ≠ b := by
+  unfold condRingNodeOther
+  by_cases h : a = b <;> simp [h]
+
+/-- … and keeps the bucket iff another entry remains (model: `setBucket` deletes the hash when the bucket becomes
+empty). -/
+theorem tie_condRingNodeKeep (b : List Node) (m : Node) :
+    condRingNodeKeep (((m :: b).length : Nat) : Int) = 1 ↔ b.isEmpty = false := by
+  unfold condRingNodeKeep
+  cases b <;> simp
+  omega
+
+/-- keys are sorted ascending (`<`) … -/
+theorem tie_condKeyLess (a b : Nat) : condKeyLess (a : Int) (b : Int) = 1 ↔ a < b := by
+  unfold condKeyLess
+  by_cases h : a < b
+  · have : (a : Int) < (b : Int) := by omega
+    simp [h, this]
+  · have : ¬ (a : Int) < (b : Int) := by omega
+    simp [h, this]
+
+/-- … and a node is inserted before the first entry whose repr is GREATER (model `insertNode`: `n.repr < m.repr`). -/
+theorem tie_condInsertBefore (existing new : Int) : condInsertBefore existing new = 1 ↔ new < existing := by
+  unfold condInsertBefore
+  by_cases h : new < existing
+  · have : existing > new := h
+    simp [h, this]
+  · have : ¬ existing > new := h
+    simp [h, this]
+
+/-- users: fatal without nodes or without a positive total weight; cache.New with exactly one node builds no ring;
+`TotalWeights` counts a negative weight as zero -/
+theorem tie_condUsers (n tw w : Int) :
+    (condCacheNoNode n tw = 1 ↔ n = 0 ∨ tw ≤ 0) ∧ (condKvNoNode n tw = 1 ↔ n = 0 ∨ tw ≤ 0) ∧
+    (condCacheSingle n = 1 ↔ n = 1) ∧ (condNegWeight w = 1 ↔ w < 0) := by
+  unfold condCacheNoNode condKvNoNode condCacheSingle condNegWeight
+  refine ⟨?_, ?_, ?_, ?_⟩
+  · by_cases h1 : n = 0 <;> by_cases h2 : tw ≤ 0 <;> simp [h1, h2]
+  · by_cases h1 : n = 0 <;> by_cases h2 : tw ≤ 0 <;> simp [h1, h2]
+  · by_cases h1 : n = 1 <;> simp [h1]
+  · by_cases h1 : w < 0 <;> simp [h1]
+
+end Conditions
+
+/-- the `nodes` set: add / test / delete of the repr (model: `nodes` list, `contains`, `erase`) -/
+theorem tie_nodeSetHelpers :
+    GoZero.Extracted.C15.addNodeBody = ["h.nodes[nodeRepr] = lang.Placeholder"] ∧
+    GoZero.Extracted.C15.containsNodeBody = ["_, ok := h.nodes[nodeRepr]", "return ok"] ∧
+    GoZero.Extracted.C15.removeNodeBody = ["delete(h.nodes, nodeRepr)"] := ⟨rfl, rfl, rfl⟩
+
 /-! ### core/lang/lang.go: the identity of nodes and keys (`repr(node)` is `lang.Repr(node)`, `tie_reprExprs`) -/
 
 /-- `Repr`: nil → ""; a Stringer is asked BEFORE pointers are dereferenced; pointers are followed while non-nil;
